@@ -1080,7 +1080,10 @@ func streamC10(r *Rand, n int, o *Out) {
 	// the codec under the options that change it: single-percent-sign encoding and the encoding override
 	cfgPct := newCfg("pctSingle", url.NewParser(url.WithPercentEncodeSinglePercentSign()), 0, 0)
 	optCfgs := []*Cfg{cfgPct, newCfg("latin1", url.NewParser(url.WithEncodingOverride(charmap.ISO8859_1)), 0, 0),
-		newCfg("pctSingle+latin1", url.NewParser(url.WithPercentEncodeSinglePercentSign(), url.WithEncodingOverride(charmap.ISO8859_1)), 0, 0)}
+		newCfg("pctSingle+latin1", url.NewParser(url.WithPercentEncodeSinglePercentSign(), url.WithEncodingOverride(charmap.ISO8859_1)), 0, 0),
+		newCfg("ebcdic037", url.NewParser(url.WithEncodingOverride(charmap.CodePage037)), 0, 0),
+		newCfg("windows1252", url.NewParser(url.WithEncodingOverride(charmap.Windows1252)), 0, 0),
+		newCfg("koi8r+pctSingle", url.NewParser(url.WithPercentEncodeSinglePercentSign(), url.WithEncodingOverride(charmap.KOI8R)), 0, 0)}
 	for i := 0; i < n; i++ {
 		rr := r.Fork()
 		set := sets[rr.N(6)].set
@@ -1090,6 +1093,25 @@ func streamC10(r *Rand, n int, o *Out) {
 			e1 := c.Parser.PercentEncodeString(s, set)
 			leafSimple(o, "LENC", c.Tok+" "+setTok(set)+" "+xs(s), xs(e1))
 			leafSimple(o, "LDEC", c.Tok+" "+xs(e1), xs(url.VerifDecodePercentEncoded(c.Parser, e1)))
+			// decoding inverts encoding when '%' is in the set — also under an encoding override, for text the charmap can
+			// represent (every code point goes through the charmap on the way out and on the way back)
+			if cm := charmapByName(c.Opts.EncodingOverride); cm != nil {
+				t := "a b%c" + scalar(s)
+				ok := true
+				for _, ch := range t {
+					if _, in := cm.EncodeRune(ch); !in {
+						ok = false
+					}
+				}
+				if ok {
+					orc.Eval("C10")
+					full := set.Set('%')
+					enc := c.Parser.PercentEncodeString(t, full)
+					if dec := url.VerifDecodePercentEncoded(c.Parser, enc); dec != t {
+						orc.Fail("C10", "decode-does-not-invert-under-override", fmt.Sprintf("%s: %s -> %s -> %s", c.Name, q(t), q(enc), q(dec)), "LENC "+c.Tok+" "+setTok(full)+" "+xs(t))
+					}
+				}
+			}
 		}
 		// with single-percent-sign encoding an existing well-formed escape stays untouched and a lone '%' becomes %25
 		orc.Eval("C10")
